@@ -8,7 +8,7 @@
                                                            => ok <hex out> pos=<ivPos> iv=<hex ring buffer> | panic
     cfb8.rt cipher= key= iv= enc=<calls> dec=<calls> msg=  => ok ct=<hex> pt=<hex> | panic
     conn.wire cipher= key= iv= writes=<n,n,...> plain=<hex> => ok <hex on the wire>
-    conn cipher= key= iv= thr=<n> dir=ab|ba frag=<seed> pkts=<id:hex;id:hex;...>
+    conn cipher= key= iv= thr=<n> dir=ab|ba frag=<seed> keep=own|reuse|mix pkts=<id:hex;id:hex;...>
                                                            => ok <id:hex;...> | err ... | panic | hang
     cfb8.pair cipher= key= iv= spare=<n> kinds=e|d|ee|ed|de|dd lazy=0|1 sched=<stream:mode:n,...> msg0= msg1=
                                                            => ok out0=<hex> out1=<hex> back=<hex caller's array> | panic
@@ -24,6 +24,7 @@ import Driver.Util
 import GoMC.Spec.CFB8
 import GoMC.Spec.AES
 import GoMC.Model.CFB8
+import GoMC.Model.ConnHist
 namespace Driver.C10
 open GoMC GoMC.Model.CFB8 Driver
 
@@ -163,12 +164,50 @@ def connWire (args : List String) (obs : String) : Verdict :=
       { model, spec := if obs == want then none else some "bytes on the wire are not the CFB8 encryption of the frames" }
   | _, _, _, _, _ => bad "conn.wire"
 
+def parsePkt (s : String) : Option Model.ConnHist.Pkt :=
+  match s.splitOn ":" with
+  | [i, h] => do
+    let id ← i.toInt?
+    let d ← parseHex h
+    pure (id, d)
+  | _ => none
+
+def showPkts (l : List Model.ConnHist.Pkt) : String :=
+  if l.isEmpty then "-" else ";".intercalate (l.map fun (i, d) => s!"{i}:{hexOfBytes d}")
+
+def parseStep (st : String) : Option Model.ConnHist.Step :=
+  match st.toList with
+  | who :: '>' :: rest => (parsePkt (String.ofList rest)).map fun p => .send (who == 'a') p
+  | [who, '<'] => some (.recv (who == 'a'))
+  | [who, '<', '='] => some (.recv (who == 'a'))
+  | [_, 'C'] => some .other
+  | _ => none
+
+/-- the packet-level session model folded over the script; `err step=k` when a read finds nothing in flight -/
+def runSess : Model.ConnHist.Sess → Nat → List Model.ConnHist.Step → String
+  | s, _, [] => s!"ok a={showPkts s.gotA} b={showPkts s.gotB} keybuf=same"
+  | s, k, x :: xs =>
+    match Model.ConnHist.step s x with
+    | none => s!"err step={k}"
+    | some s' => runSess s' (k + 1) xs
+
 /-- two encrypted `Conn`s over a duplex pipe: the receiver must see exactly the packets sent, in order -/
 def conn (args : List String) (obs : String) : Verdict :=
   match kv args "pkts" with
   | some pkts =>
     let want := "ok " ++ pkts
-    { model := want, spec := if obs == want then none else some "packets received differ from packets sent" }
+    -- model: the packet-level session (all packets written by one end, all read by the other, kept to the end)
+    let ps := if pkts == "-" then some [] else (pkts.splitOn ";").mapM parsePkt
+    let model := match ps with
+      | some l => runSess {} 0 (l.map (Model.ConnHist.Step.send true) ++ l.map fun _ => Model.ConnHist.Step.recv false)
+      | none => "bad-arg pkts"
+    let model := match ps, model.splitOn " " with
+      | some _, ["ok", _, b, _] => "ok " ++ (b.drop 2).toString
+      | _, _ => model
+    let why := if (obs.splitOn " ").any (·.startsWith "changed-was:")
+      then "a packet changed after it was delivered (later traffic wrote into it)"
+      else "packets received differ from packets sent"
+    { model, spec := if obs == want then none else some why }
   | none => bad "conn"
 
 /-! ### one or two streams built from one caller-owned IV slice (`cfb8.pair`) -/
@@ -234,17 +273,21 @@ def sess (args : List String) (obs : String) : Verdict :=
     let steps := if sc == "-" then [] else sc.splitOn ","
     let sentBy (who : Char) : List String :=
       steps.filterMap fun st => if st.startsWith (String.singleton who ++ ">") then some (st.drop 2).toString else none
-    let readsOf (who : Char) : Nat := (steps.filter fun st => st == String.singleton who ++ "<").length
+    let readsOf (who : Char) : Nat :=
+      (steps.filter fun st => st == String.singleton who ++ "<" || st == String.singleton who ++ "<=").length
     let show_ (l : List String) : String := if l.isEmpty then "-" else ";".intercalate l
     let a := show_ ((sentBy 'b').take (readsOf 'a'))
     let b := show_ ((sentBy 'a').take (readsOf 'b'))
-    let want := s!"ok a={a} b={b} keybuf=same"
     let toks := obs.splitOn " "
     let spec : Option String :=
       if toks.head? != some "ok" then some "a packet was lost, damaged or refused"
+      else if toks.any (·.startsWith "changed-was:") then some "a packet changed after it was delivered (later traffic wrote into it)"
       else if kv toks "a" != some a || kv toks "b" != some b then some "packets received differ from packets sent"
       else none
-    { model := want, spec }
+    let model := match steps.mapM parseStep with
+      | some st => runSess {} 0 st
+      | none => "bad-arg script"
+    { model, spec }
 
 def handle (op : String) (args : List String) (obs : String) : Option Verdict :=
   match op with
